@@ -32,7 +32,9 @@ FILES = [c07.fspec("ML", 40, "UPPER", pat="ramp7", load=0x3000, exec_=0x3005), c
          c07.fspec("ML", 21, "'TIS", pat="ramp", load=0x2100, exec_=0x2101), c07.fspec("ML", 22, "TIS", pat="ramp7", load=0x2200, exec_=0x2201),
          c07.fspec("BAS", 23, '"Q"', "BAS"),
          # addresses at the very top of memory, and a text file with DOS line ends and an end-of-file mark
-         c07.fspec("ML", 14, "VECTORS", pat="ramp7", load=0xFFF2, exec_=0xFFFE), c07.fspec("ASC", 300, "DOSTEXT", "TXT", pat="dos")]
+         c07.fspec("ML", 14, "VECTORS", pat="ramp7", load=0xFFF2, exec_=0xFFFE), c07.fspec("ASC", 300, "DOSTEXT", "TXT", pat="dos"),
+         # addresses in the zero page (their shortest hex form has two digits)
+         c07.fspec("ML", 12, "LOWPAGE", pat="ramp", load=0x0080, exec_=0x00C8)]
 DUP = 7
 
 
@@ -50,7 +52,7 @@ def source_sets(tier):
     yield [0, 1, DUP]
     yield [1, DUP, 0]
     for fs in ([8], [9], [10], [0, 8], [8, 9], [9, 1, 8], [10, 8, 0], [11], [0, 11], [11, 1, 5], [12], [12, 13], [13, 12, 0], [14], [14, 12],
-               [15], [0, 15], [16], [16, 1]):
+               [15], [0, 15], [16], [16, 1], [17], [17, 0]):
         yield fs
 
 
@@ -79,6 +81,10 @@ def cases(tier, seed):
                 for tkind in ("cas", "dsk"):
                     yield {"k": "conv", "skind": "dsk", "files": fset, "tkind": tkind, "sel": None, "mode": None, "absent": False, "holes": True}
                     yield {"k": "conv", "skind": "dsk", "files": fset, "tkind": tkind, "sel": [fset[-1]], "mode": "lower", "absent": False, "holes": True}
+            if fset and skind == "dsk" and any(i in (8, 9, 10) for i in fset):
+                # a source disk as Disk BASIC writes it: streams that end on a sector / granule boundary have no spare sector or granule
+                for tkind in ("cas", "dsk"):
+                    yield {"k": "conv", "skind": "dsk", "files": fset, "tkind": tkind, "sel": None, "mode": None, "absent": False, "tight": True}
             if fset:
                 yield {"k": "chain", "skind": skind, "files": fset}
                 if skind == "cas":
@@ -107,7 +113,7 @@ def cases(tier, seed):
 HOLE_SLOTS = [1, 3, 4, 7, 9]
 
 
-def write_source(path, kind, fset, gaps=None, holes=False, chunk=255, nulpad=False):
+def write_source(path, kind, fset, gaps=None, holes=False, chunk=255, nulpad=False, tight=False):
     specs = [FILES[i] for i in fset]
     if kind == "cas":
         b = tape.write([dict(name=s["name"] if not nulpad else s["name"][:8].ljust(8, "\0"), type=s["type"], dtype=s["dtype"], load=s["load"], exec=s["exec"], data=C.pattern(s["n"], s["pat"])) for s in specs],
@@ -119,6 +125,8 @@ def write_source(path, kind, fset, gaps=None, holes=False, chunk=255, nulpad=Fal
             k = c07.kind_of(s)
             stream = dskfs.make_stream(c07.stream_kind(k), C.pattern(s["n"], s["pat"]), s["load"], s["exec"])
             need = len(stream) // 2304 + 1
+            if tight and stream and len(stream) % 256 == 0:
+                need = (len(stream) + 2303) // 2304
             chain = list(range(g, g + need))
             if len(fl) % 2:                      # every second file on a descending chain, the first one across the directory track
                 chain = chain[::-1]
@@ -126,7 +134,7 @@ def write_source(path, kind, fset, gaps=None, holes=False, chunk=255, nulpad=Fal
             if holes:       # KILLed entries in slots 0, 2 and 5, never-used ones elsewhere, live files in between
                 fl[-1]["slot"] = HOLE_SLOTS[len(fl) - 1]
             g += need + 1
-        b = dskfs.write(fl, killed=(0, 2, 5) if holes else ())
+        b = dskfs.write(fl, killed=(0, 2, 5) if holes else (), tight=tight)
     open(path, "wb").write(b)
     return specs
 
@@ -164,7 +172,7 @@ def check_case(case):
     names = ",".join(FILES[i]["name"] for i in case["files"]) or "none"
     if case["k"] == "conv":
         sel = "all" if case["sel"] is None else (",".join(FILES[i]["name"] for i in case["sel"]) + ("+absent" if case["absent"] else "")) or "absent-only"
-        cell = "conv|{}{}>{}|{}|sel={}|{}".format(case["skind"], ".gaps" if case.get("gaps") else ".holes" if case.get("holes") else ".chunk{}".format(case["chunk"]) if case.get("chunk") else ".nulpad" if case.get("nulpad") else "", case["tkind"], names, sel, case["mode"] or "-")
+        cell = "conv|{}{}>{}|{}|sel={}|{}".format(case["skind"], ".gaps" if case.get("gaps") else ".holes" if case.get("holes") else ".chunk{}".format(case["chunk"]) if case.get("chunk") else ".nulpad" if case.get("nulpad") else ".tight" if case.get("tight") else "", case["tkind"], names, sel, case["mode"] or "-")
     elif case["k"] == "chain":
         cell = "chain|{}|{}".format(case["skind"], names)
     elif case["k"] == "multi":
@@ -180,7 +188,7 @@ def check_case(case):
     try:
         os.chdir(td)
         src = "src." + case["skind"]
-        specs = write_source(src, case["skind"], case["files"], case.get("gaps"), case.get("holes", False), case.get("chunk", 255), case.get("nulpad", False))
+        specs = write_source(src, case["skind"], case["files"], case.get("gaps"), case.get("holes", False), case.get("chunk", 255), case.get("nulpad", False), case.get("tight", False))
         if case["k"] == "conv":
             tgt = "tgt." + case["tkind"]
             files_arg = None
